@@ -92,6 +92,8 @@ def declare_units(rng, parent, p_explicit=0.35, moderate=False, allow_partial=Tr
     """a value for a "units" key (or None = key absent) and the resolved system for an owner whose parent's
     system is `parent` (every `*_from_dict` below the script defaults to "inherit")"""
     r = rng.random()
+    if p_explicit > 0 and allow_partial and rng.random() < 0.08:
+        return {}, DEFAULT_SYS          # the empty dictionary: every omitted key takes the default unit (NOT the parent's)
     if r < p_explicit:
         s = rand_sys(rng, moderate)
         d = sysj(s)
